@@ -29,7 +29,7 @@ Ops == \/ \E raw \in RawSeeds : h = <<>> /\ store' = Load(raw) /\ sw' = sw /\ h'
        \/ store' = JsonRoundTrip(store) /\ sw' = sw /\ h' = Append(h, Rec("json", [x |-> 0]))
 
 Maps == { <<>>, <<<<KA, <<V3>>>>>>, <<<<KA, <<V3, V4>>>>, <<KB, <<V1>>>>>>, <<<<KB, <<V2, V1>>>>, <<KA, <<V5>>>>>>, <<<<KA, <<V6>>>>>>,
-          <<<<KC, <<>>>>, <<KA, <<V4, V1>>>>>>, <<<<KA, <<V5, V3, V5>>>>>> }
+          <<<<KC, <<>>>>, <<KA, <<V4, V1>>>>>>, <<<<KA, <<V5, V3, V5>>>>>>, <<<<KC, <<V1>>>>, <<KA, <<>>>>>> }
 VARIABLES m1, m2, num
 MergeInit == m1 \in Maps /\ m2 \in Maps /\ num \in BOOLEAN
 vars == <<store, sw, h, m1, m2, num>>
